@@ -253,6 +253,37 @@ Theorem C14_array_argument_by_value_instance :
 Proof. exact array_by_value_example. Qed.
 Print Assumptions C14_array_argument_by_value_instance.
 
+(* ---- positional names $[[n]] / values $[[[n]]] *)
+Theorem C14_positional_out_of_range_assignment_is_noop :
+  forall m p v, pos_idx m p = None -> pos_put_value m p v = m /\ pos_put_name m p v = m.
+Proof. exact positional_out_of_range_is_noop. Qed.
+Print Assumptions C14_positional_out_of_range_assignment_is_noop.
+
+Theorem C14_positional_negative_alias :
+  forall m p, 1 <= p <= Z.of_nat (List.length m) -> pos_idx m (p - Z.of_nat (List.length m) - 1) = pos_idx m p.
+Proof. exact positional_alias. Qed.
+Print Assumptions C14_positional_negative_alias.
+
+Theorem C14_positional_value_assignment_keeps_names : forall m p v, mkeys (pos_put_value m p v) = mkeys m.
+Proof. exact positional_value_assignment_keeps_names. Qed.
+Print Assumptions C14_positional_value_assignment_keeps_names.
+
+(* ---- emitf @a, @b = one record with those names *)
+Theorem C14_emitf_is_one_record :
+  forall fns rec items st vs st1,
+    rec (TEvals (map snd items)) st = Ok (RVs vs, st1) ->
+    step fns rec (TExec (SEmitF items)) st =
+    Ok (RO ONormal, emit_item (ORec (fold_left (fun r kv => match snd kv with VAbsent => r | v => mput (fst kv) v r end)
+                                               (combine (map fst items) vs) [])) st1).
+Proof. exact emitf_is_one_record. Qed.
+Print Assumptions C14_emitf_is_one_record.
+
+Example C14_positional_nonvacuous :
+  pos_idx [(B "a", VInt 1); (B "b", VInt 2)] 3 = None
+  /\ pos_put_name [(B "a", VInt 1); (B "b", VInt 2); (B "c", VInt 3)] 1 (VStr (B "b")) = [(B "b", VInt 1); (B "c", VInt 3)]
+  /\ pos_name [(B "a", VInt 1); (B "b", VInt 2)] (-1) = Some (B "b").
+Proof. repeat split; vm_compute; reflexivity. Qed.
+
 Example C14_arrays_nonvacuous :
   arr_get [VInt 10; VInt 20; VInt 30] (-1) = Some (VInt 30)
   /\ arr_inb (alen [VInt 10; VInt 20; VInt 30]) (-3) = true /\ arr_inb 3 0 = false /\ arr_inb 3 4 = false
